@@ -91,6 +91,14 @@ def gen_cases(tier, seed, ctx):
                 impl = 'ERR exit%d' % r1.returncode
             cases.append(E.Case('z%d' % len(cases), 'ZCKOPS %s %s %d' % (src, SPLIT.hex(), manual),
                                 dict(kind='tool-scanner', impl=impl, size=len(data))))
+    # several writer contexts with overlapping lifetimes (one closed but freed late, the others opened in between): every output
+    # must hold what its context was given, whichever descriptor numbers were free when
+    for comp in ('none', 'zstd'):
+        for data in (C['one'], C['small'], C['mid']):
+            k = len(cases)
+            ps = [os.path.join(ctx['work'], 'w3_%d_%d.zck' % (k, j)) for j in range(3)]
+            cases.append(E.Case('w%d' % k, 'WRITE3 %s %s %s %s %s' % (ps[0], ps[1], ps[2], comp, data[:60000].hex()),
+                                dict(kind='three-contexts', size=len(data))))
     return cases
 
 # ------------------------------------------------------------------ command-line tools
@@ -159,7 +167,7 @@ def run(tier, seed, replay=None):
     rule = ("WRITE through zck_write/zck_end_chunk/zck_close then re-open, zck_validate_checksums and read back: contents (empty, 1 byte, 777 B, "
             "40 kB, 150/300 kB text / zeros / random) x (none, zstd levels, dictionary, manual/automatic) x (min,max) in {default,(1,1),(7,7),"
             "(1,4096),(8192,8192),(200000,300000),(1000,1001),(5000,100000)} x hash-type pairs x uncompressed-source flag x segmentations, "
-            "with end_chunk calls sprinkled in, final chunk below the minimum, zero-length writes, descriptor 0 free; each write runs under "
+            "with end_chunk calls sprinkled in, final chunk below the minimum, zero-length writes, descriptor 0 free; WRITE3: three writer contexts with overlapping lifetimes (closed-but-not-freed, outputs opened in between); each write runs under "
             "a wall-clock bound (HANG is a result). Tools: real zck | unzck on inputs with the split string at every alignment around "
             "32 KiB block edges, as (partial) suffix, doubled, and under the option combinations")
     return E.standard_run(PROP, MODULES, gen_cases, tier, seed, replay, ASSUMPTIONS, rule, nontrivial=nontrivial, timeout_s=15,
